@@ -520,6 +520,7 @@ impl<T: Qcow2IoOps> Qcow2Dev<T> {
 
     //// flush refcount table and block dirty data to disk
     pub(crate) async fn flush_refcount(&self) -> Qcow2Result<()> {
+        let mut wrote_reftable = false;
         loop {
             let rt = &*self.reftable.read().await;
             let done = self
@@ -533,6 +534,14 @@ impl<T: Qcow2IoOps> Qcow2Dev<T> {
             if done {
                 break;
             }
+            wrote_reftable = true;
+        }
+        if wrote_reftable {
+            // A refcount block is reachable through its reftable entry
+            // only: the entry has to be on disk before any mapping of a
+            // cluster counted in that block is written, and callers go on
+            // with flushing mappings.
+            self.call_fsync(0, usize::MAX, 0).await?;
         }
         Ok(())
     }
